@@ -37,6 +37,8 @@ import (
 //	growth xrefstm k      k chained tables whose /XRefStm offsets differ by leading white space
 //	growth xreftables k   k overlapping cross-reference tables in a /Prev chain
 //	growth seqscan n      SequentialScan over n stream objects without endstream
+//	growth seqdup n       SequentialScan + MakeReader over n definitions of ONE object number, streams
+//	                      without endstream (bytes asked of the ReaderAt <= 10 x file size)
 //	growth objstm n       FindPages over n pages in one padded Flate object stream
 //	growth jbig2 n        DecodeStream through a chain of n /JBIG2Globals references
 //	growth widgets n      page.Decode of n widgets below a chain of n field ancestors
@@ -222,6 +224,18 @@ func c05eInput(variant string, n int) []byte {
 		}
 		fmt.Fprintf(&b, "trailer\n<< /Size %d /Root 1 0 R >>\nstartxref\n%d\n%%%%EOF\n", len(offs)+1, x)
 		return b.Bytes()
+	case "seqdup":
+		// incremental-save style: the SAME object number defined n times, each revision a stream
+		// with neither a usable /Length nor an endstream in front of the next revision (200 bytes
+		// of data each); the recovery search of every revision must stop at the NEXT located
+		// object, also when that is an earlier definition of the same reference
+		var b bytes.Buffer
+		b.WriteString("%PDF-1.7\n1 0 obj\n<< /Type /Catalog /Pages 2 0 R >>\nendobj\n2 0 obj\n<< /Type /Pages /Kids [] /Count 0 >>\nendobj\n")
+		for i := 0; i < n; i++ {
+			fmt.Fprintf(&b, "3 0 obj\n<</Rev %d /Length 4 0 R>>stream\n%s\n", i, strings.Repeat("revision data 0123456789 ", 8))
+		}
+		b.WriteString("\nendstream\nendobj\ntrailer\n<< /Size 4 /Root 1 0 R >>\n%%EOF\n")
+		return b.Bytes()
 	case "objstm":
 		pad := n << 10
 		var f bytes.Buffer
@@ -305,6 +319,20 @@ func c05eInput(variant string, n int) []byte {
 	return nil
 }
 
+// c05eCountRA counts the bytes the library asks for: a deterministic measure of the work of the
+// file-level code (unlike CPU time it does not depend on the machine).
+type c05eCountRA struct {
+	r *bytes.Reader
+	n int64
+}
+
+func (c *c05eCountRA) ReadAt(p []byte, off int64) (int, error) {
+	c.n += int64(len(p))
+	return c.r.ReadAt(p, off)
+}
+
+var c05eBytesRead int64 // bytes asked for by the last c05eWork
+
 func c05eCPU() time.Duration {
 	var ru syscall.Rusage
 	if syscall.Getrusage(syscall.RUSAGE_SELF, &ru) != nil {
@@ -321,26 +349,28 @@ func c05eWork(variant string, data []byte) (cpu time.Duration, heap uint64, note
 	runtime.ReadMemStats(&m0)
 	t0 := c05eCPU()
 	var keep any
+	src := &c05eCountRA{r: bytes.NewReader(data)}
+	defer func() { c05eBytesRead = src.n }()
 	switch variant {
-	case "seqscan":
-		fi, err := pdf.SequentialScan(bytes.NewReader(data), int64(len(data)))
+	case "seqscan", "seqdup":
+		fi, err := pdf.SequentialScan(src, int64(len(data)))
 		if err == nil {
 			r, err2 := fi.MakeReader(nil)
 			keep, err = r, err2
 		}
 		note = fmt.Sprint(err)
 	case "xrefstm", "xreftables":
-		r, err := pdf.NewReader(bytes.NewReader(data), int64(len(data)), nil)
+		r, err := pdf.NewReader(src, int64(len(data)), nil)
 		keep, note = r, fmt.Sprint(err)
 	case "objstm":
-		r, err := pdf.NewReader(bytes.NewReader(data), int64(len(data)), nil)
+		r, err := pdf.NewReader(src, int64(len(data)), nil)
 		if err == nil {
 			pages, err2 := pagetree.FindPages(r)
 			keep, err = pages, err2
 		}
 		note = fmt.Sprint(err)
 	case "jbig2":
-		r, err := pdf.NewReader(bytes.NewReader(data), int64(len(data)), nil)
+		r, err := pdf.NewReader(src, int64(len(data)), nil)
 		if err == nil {
 			var obj pdf.Native
 			obj, err = r.Get(pdf.NewReference(3, 0), true)
@@ -355,7 +385,7 @@ func c05eWork(variant string, data []byte) (cpu time.Duration, heap uint64, note
 		}
 		note = truncTo(fmt.Sprint(err), 60)
 	default: // page walks
-		r, err := pdf.NewReader(bytes.NewReader(data), int64(len(data)), nil)
+		r, err := pdf.NewReader(src, int64(len(data)), nil)
 		if err == nil {
 			x := pdf.NewExtractor(r)
 			rr := reader.New(x)
@@ -417,6 +447,7 @@ func c05eChildGrowth(variant string, n int) string {
 	var cpu [2]time.Duration
 	var heap [2]uint64
 	var flen [2]int
+	var rd [2]int64
 	note := ""
 	for i, sz := range sizes {
 		data := c05eInput(variant, sz)
@@ -433,13 +464,14 @@ func c05eChildGrowth(variant string, n int) string {
 				heap[i] = h
 			}
 			note = nt
+			rd[i] = c05eBytesRead
 			if c > 20*time.Second {
 				break
 			}
 		}
 	}
-	return fmt.Sprintf("growth cpu1=%d cpu2=%d heap1=%d heap2=%d len1=%d len2=%d note=%s",
-		cpu[0].Milliseconds(), cpu[1].Milliseconds(), heap[0]>>20, heap[1]>>20, flen[0], flen[1], strings.ReplaceAll(note, " ", "_"))
+	return fmt.Sprintf("growth cpu1=%d cpu2=%d heap1=%d heap2=%d len1=%d len2=%d rd1=%d rd2=%d note=%s",
+		cpu[0].Milliseconds(), cpu[1].Milliseconds(), heap[0]>>20, heap[1]>>20, flen[0], flen[1], rd[0], rd[1], strings.ReplaceAll(note, " ", "_"))
 }
 
 // ---- self references that must not recurse without bound ----
@@ -555,6 +587,7 @@ func c05eCases(thorough bool) []string {
 		fmt.Sprintf("growth xrefstm %d", 160*mul),
 		fmt.Sprintf("growth xreftables %d", 1500*mul),
 		fmt.Sprintf("growth seqscan %d", 1000*mul),
+		fmt.Sprintf("growth seqdup %d", 150*mul),
 		fmt.Sprintf("growth objstm %d", 500*mul),
 		fmt.Sprintf("growth jbig2 %d", 8000*min(mul, 2)),
 		fmt.Sprintf("growth widgets %d", 200*mul),
@@ -574,6 +607,9 @@ func c05eCases(thorough bool) []string {
 	}
 	return cs
 }
+
+// c05eReadOracle: the walks whose cost the counting reader sees in full.
+var c05eReadOracle = map[string]bool{"seqscan": true, "seqdup": true, "xrefstm": true, "xreftables": true}
 
 func c05eJudge(desc string) (ok bool, key, detail string) {
 	f := strings.Fields(desc)
@@ -609,6 +645,17 @@ func c05eJudge(desc string) (ok bool, key, detail string) {
 			return false, "C05-memory-retained-" + f[1], fmt.Sprintf("%q: a page content of %s nested q operators in a file of %d bytes leaves %d MiB of heap referenced by the reader (budget 128 MiB)", desc, f[2], v["len2"], v["heap2"])
 		}
 		return true, "", outcome
+	}
+	// bytes asked of the ReaderAt (deterministic, unlike CPU time): the file-level walks read every
+	// byte a bounded number of times, so twice the input asks for twice the bytes (unchanged tree:
+	// seqscan 22.9x -> 22.7x of the file size — small objects, one scanner window each —, seqdup
+	// 5.3x -> 5.3x, xrefstm 18.4x -> 18.4x, xreftables 1.1x -> 1.0x).  A factor above 3 at more than
+	// 8 x the file size is super-linear; seqdup also has the absolute cap of 10 x the file size.
+	if c05eReadOracle[f[1]] {
+		r1, r2 := float64(v["rd1"])/float64(max(v["len1"], 1)), float64(v["rd2"])/float64(max(v["len2"], 1))
+		if (v["rd2"] > 3*max(v["rd1"], 1) && v["rd2"] > 8*v["len2"]) || (f[1] == "seqdup" && v["rd2"] > 10*v["len2"]) {
+			return false, "C05-superlinear-reads-" + f[1], fmt.Sprintf("%q: the library asked its ReaderAt for %d bytes of a file of %d bytes (%.1f x the file) and for %d bytes of a file of %d bytes (%.1f x)", desc, v["rd1"], v["len1"], r1, v["rd2"], v["len2"], r2)
+		}
 	}
 	if v["cpu2"] > 400 && v["cpu2"] > 3*max(v["cpu1"], 1) {
 		return false, "C05-superlinear-time-" + f[1], fmt.Sprintf("%q: CPU time %d ms -> %d ms for %s (the larger input has %s; factor %.1f > 3)", desc, v["cpu1"], v["cpu2"], sizes, map[bool]string{true: "the size parameter plus one", false: "twice the size parameter"}[f[1] == "alternates" || f[1] == "codespacerange"], float64(v["cpu2"])/float64(max(v["cpu1"], 1)))
